@@ -50,3 +50,24 @@ Definition handshake (one_deadline : bool) (T a b : N) : option N :=
     (if one_deadline then (if (a + b <? T)%N then Some (a + b)%N else None)
      else (if (b <? T)%N then Some (a + b)%N else None))
   else None.
+
+(* The deadline of the handshake is an instant on the clock (core.rs listen_tcp: the instant the connection was accepted + T), and
+   that sum has to be representable: [room] = how far beyond now the clock reaches (tokio's Instant on Linux counts the seconds in
+   an i64; tls_handshake_timeout_secs may be as large as i64::MAX, a natural way to write "no limit"), [far] = what stands in for
+   a deadline the clock cannot represent (30 years, tokio's own far future).
+   [saturates] = TLS_HANDSHAKE_DEADLINE_SATURATES: the deadline is computed with checked_add and falls back to now + far; as found
+   (once the two stages shared one deadline) the plain addition panicked in the connection's task and the connection was dropped,
+   whatever the client did.
+   Some T' = the limit the handshake runs under; None = there is no handshake at all. *)
+Definition handshake_limit (saturates : bool) (room far T : N) : option N :=
+  if (T <=? room)%N then Some T else if saturates then Some far else None.
+
+Definition listener_handshake (one_deadline saturates : bool) (room far T a b : N) : option N :=
+  match handshake_limit saturates room far T with
+  | Some T' => handshake one_deadline T' a b
+  | None => None
+  end.
+
+(* milliseconds: i64::MAX seconds less the clock's own reading (at least one second since boot), and 30 years *)
+Definition CLOCK_ROOM_MS : N := (9223372036854775807 - 1) * 1000.
+Definition FAR_FUTURE_MS : N := 86400 * 365 * 30 * 1000.
